@@ -304,6 +304,39 @@ func Cols3Menu() []spec.Batch {
 	return rv
 }
 
+// SynAMenu: the BUILD alphabet of C12 reused as merge inputs: every batch of one
+// document (items 0..14) and of two documents (items 15..239) over the 15 document kinds
+// (ordinary; 2 thesauri x 7 definition shapes). Ids are unique per item.
+func SynAMenu() []spec.Batch {
+	var rv []spec.Batch
+	for n := 1; n <= 2; n++ {
+		Product(n, NumSynDocKinds, func(v []int) {
+			b := SynCase{Docs: v}.Batch()
+			for d := range b.Docs {
+				b.Docs[d].ID = fmt.Sprintf("y%d-%d", len(rv), d)
+			}
+			rv = append(rv, b)
+		})
+	}
+	return rv
+}
+
+// VecAMenu: the build alphabet of C14 as merge inputs: every batch of one (items 0..8)
+// and of two documents (items 9..89) over the 9 vector cells, metric L2.
+func VecAMenu() []spec.Batch {
+	var rv []spec.Batch
+	for n := 1; n <= 2; n++ {
+		Product(n, 9, func(v []int) {
+			b := VecCase{Docs: v, Metric: "l2_norm"}.Batch()
+			for d := range b.Docs {
+				b.Docs[d].ID = fmt.Sprintf("u%d-%d", len(rv), d)
+			}
+			rv = append(rv, b)
+		})
+	}
+	return rv
+}
+
 // Stored1Menu: every single-document batch of the 9-entry stored-field cell menu.
 func Stored1Menu() []spec.Batch {
 	var rv []spec.Batch
@@ -334,6 +367,10 @@ func menuOf1(name string) []spec.Batch {
 		return Cells1Menu()
 	case "cols3":
 		return Cols3Menu()
+	case "synA":
+		return SynAMenu()
+	case "vecA":
+		return VecAMenu()
 	case "stored1":
 		return Stored1Menu()
 	case "big":
